@@ -31,7 +31,7 @@ from vf.harness import Fuel, FuelExhausted
 from vf.checks import c19
 
 PROP = "C20"
-LEVEL = "exploration"
+LEVEL = "fault_enumeration"
 RULE = (
     "case = (protocol spec, peer script, delivery schedule); non-trivial = run with >= 2 remote messages, or >= 1 reply "
     "delivered in >= 2 chunks across a virtual tick, or a fault injected after >= 1 successful exchange; distinct by "
